@@ -60,6 +60,9 @@ def random_exec(rng, nops, maxlen, alphabet):
             if i >= 0: cur[o] = s[:i] + s[i + len(t):]
         elif r < 0.60:
             L.append("mem %d %s" % (o, hx(piece())))
+        elif r < 0.602:
+            k = rng.randrange(3); L.append("cmptype %d %d" % (o, k))
+            if rng.random() < 0.5: nm = [b"Int", b"Float", b"Table"][k]; L.append("assign %d %s" % (o, hx(nm))); cur[o] = nm; L.append("cmptype %d %d" % (o, k)); L.append("cmptype %d %d" % (o, (k + 1) % 3))
         elif r < 0.605:
             L.append("remint %d" % o)
         elif r < 0.61:
@@ -125,7 +128,8 @@ def layout_execs(rng):
     rs = lambda n: bytes(rng.choice(b"abcdefghijklmnopqrstuvwxyz") for _ in range(n))
     for (a, b) in ((40, 300), (100, 1000), (24, 200), (3000, 3999), (8, 64), (1, 40), (0, 33)):
         for op in ("concato", "appendo"):
-            out.append(["reset", "new 1 %s" % hx(rs(a)), "new 2 %s" % hx(rs(b)), "%s 1 2" % op, "cmp 1 2", "%s 2 1" % op, "%s 1 2" % op])
+            out.append(["reset", "new 1 %s" % hx(rs(a)), "new 2 %s" % hx(rs(b)), "%s 1 2" % op, "cmp 1 2", "%s 2 1" % op, "%s 1 2" % op,
+                        "assign 1 %s" % hx(b"Int"), "cmptype 1 0", "cmptype 1 1", "assign 1 %s" % hx(b"Floa"), "cmptype 1 1", "cmptype 1 2"])
     for L0 in (20, 64, 200, 1000):
         for frac in (0.5, 0.6, 0.75, 0.95):
             n = int(L0 * frac) + 1
